@@ -723,15 +723,26 @@ def _T(**kw):
 
 
 def enumerate_items(thorough):
-    """Simplest-first list of items.  Every slice below is a full product of the named grammars with
-    the remaining coordinates at their simplest value (deviation bound printed in the evidence)."""
+    """Simplest-first list of items.  Every slice is a *full product* of the named grammars with the
+    remaining coordinates at their simplest value (the deviation bound; sizes go to the evidence)."""
     items = []
     seen = set()
+    slices = {}
 
     def add(it):
         if it not in seen:
             seen.add(it)
             items.append(it)
+
+    class _Slice:
+        def __init__(self, name):
+            self.name = name
+
+        def __enter__(self):
+            self.n0 = len(items)
+
+        def __exit__(self, *a):
+            slices[self.name] = len(items) - self.n0
 
     binders = S.BINDER_ORDER
     uses = S.USE_ORDER
@@ -740,92 +751,144 @@ def enumerate_items(thorough):
     mids = S.MID_ORDER
     pl1, pl2, pl3 = S.placements(1), S.placements(2), S.placements(3)
     sc1, sc2, sc3 = S.scope_strings(1), S.scope_strings(2), S.scope_strings(3)
-    slices = {}
-
-    def mark(name, n0):
-        slices[name] = len(items) - n0
-
-    # ---- clauses (a)+(b)
-    n0 = len(items)
-    for b in binders:  # every binder in its minimal context first: smallest failing programs come first
-        add(("py", _T(b=b)))
-    for o, i in (pl3 if thorough else pl2):
-        for b in binders:
-            for u in (uses if thorough else ["sub-flag"]):
-                for f in ("head", "arg"):
-                    add(("py", _T(b=b, o=o, i=i, u=u, f=f)))
-    mark("py: binder x placement x use x focus", n0)
-    n0 = len(items)
-    for o, i in pl1:
-        for b in binders:
-            for u in uses:
-                for f in ("head", "arg") if (o, i) == ("", "") else ("head",):
-                    add(("py", _T(b=b, o=o, i=i, u=u, f=f)))
-    mark("py: binder x placement(depth<=1) x every use", n0)
-    n0 = len(items)
-    for o, i in (pl1 if thorough else [("", "")]):
-        for w in wraps:
-            for b in binders:
-                for u in (uses if thorough else core):
-                    add(("py", _T(b=b, o=o, i=i, u=u, w=w)))
-    mark("py: binder x statement wrapper x use", n0)
-    n0 = len(items)
-    for o, i in (pl2 if thorough else pl1):
-        for mid in mids:
-            for b in binders:
-                for u in (core if thorough else ["sub-flag"]):
-                    add(("py", _T(b=b, o=o, i=i, u=u, mid=mid)))
-    mark("py: binder x interlude in another scope x placement", n0)
-    n0 = len(items)
-    for o, i in (pl1 if thorough else [("", "")]):
-        for b2 in S.B2_OK:
-            for b in binders:
-                for f in ("head", "arg"):
-                    add(("py", _T(b=b, o=o, i=i, f=f, b2=b2)))
-    mark("py: binder pairs (every read name bound by a non-trivial binder)", n0)
-
-    # ---- clause (c)
-    n0 = len(items)
+    both = ("head", "arg")
     delb = [b for b in binders if S.B[b]["embed"] is None]
     cmd_uses = [u for u in uses if S.USES[u]["cmd"]]
+    core_cmd = ["sub-flag", "bare", "pipe", "gt", "attr-flag"]
     stmt_wraps = [w for w in wraps if not S.WRAPS[w][0]]
-    for o in (sc3 if thorough else sc2):
-        for dform in S.DEL_ORDER:
-            for b in delb:
-                for u in (cmd_uses if thorough else ["sub-flag"]):
-                    add(("del", _T(b=b, o=o, u=u), dform))
-    for o in (sc2 if thorough else sc1):
-        for b in delb:
-            for u in cmd_uses:
-                add(("del", _T(b=b, o=o, u=u), "del"))
-    for o in (sc2 if thorough else [""]):
-        for w in stmt_wraps:
-            for dform in (S.DEL_ORDER if thorough else ["del"]):
-                for b in delb:
-                    add(("del", _T(b=b, o=o, w=w), dform))
-    mark("del: binder x scope x del form x use x wrapper", n0)
+    reps = ["assign", "for", "param-pos", "import", "with", "global-func"]
 
-    # ---- clause (d)
-    n0 = len(items)
-    progs = []
-    for b in binders:
-        for u in (core if thorough else ["sub-flag"]):
-            progs.append(_T(b=b, u=u))
-    for o, i in (pl3 if thorough else pl2):
-        for u in (uses if thorough else ["sub-flag"]):
-            progs.append(_T(o=o, i=i, u=u))
-    for u in uses:
-        for w in (wraps if thorough else ["none"]):
-            progs.append(_T(u=u, w=w))
-    progs = list(dict.fromkeys(progs))
-    for pos in ("end", "mid"):
+    # ---------------- clauses (a)+(b)
+    with _Slice("py: every binder in its minimal context"):
+        for b in binders:
+            add(("py", _T(b=b)))
+    with _Slice("py: binder x use x focus (module level)"):
+        for b in binders:
+            for u in uses:
+                for f in both:
+                    add(("py", _T(b=b, u=u, f=f)))
+    if not thorough:
+        with _Slice("py: binder x placement(depth<=2) x focus"):
+            for o, i in pl2:
+                for b in binders:
+                    for f in both:
+                        add(("py", _T(b=b, o=o, i=i, f=f)))
+        with _Slice("py: binder x placement(depth<=1) x core uses"):
+            for o, i in pl1:
+                for b in binders:
+                    for u in core:
+                        add(("py", _T(b=b, o=o, i=i, u=u)))
+        with _Slice("py: binder x wrapper; representative binders x wrapper x use"):
+            for w in wraps:
+                for b in binders:
+                    add(("py", _T(b=b, w=w)))
+            for w in wraps:
+                for b in reps:
+                    for u in uses:
+                        add(("py", _T(b=b, w=w, u=u)))
+        with _Slice("py: binder x interlude x {module, function}"):
+            for o in ("", "f"):
+                for mid in mids:
+                    for b in binders:
+                        add(("py", _T(b=b, o=o, mid=mid)))
+        with _Slice("py: binder pairs (assign x every b2, every binder x b2=assign)"):
+            for f in both:
+                for b2 in S.B2_OK:
+                    add(("py", _T(b="assign", b2=b2, f=f)))
+                for b in binders:
+                    add(("py", _T(b=b, b2="assign", f=f)))
+    else:
+        with _Slice("py: binder x placement(depth<=3) x core uses x focus"):
+            for o, i in pl3:
+                for b in binders:
+                    for u in core:
+                        for f in both:
+                            add(("py", _T(b=b, o=o, i=i, u=u, f=f)))
+        with _Slice("py: binder x placement(depth<=2) x every use"):
+            for o, i in pl2:
+                for b in binders:
+                    for u in uses:
+                        add(("py", _T(b=b, o=o, i=i, u=u)))
+        with _Slice("py: binder x wrapper x use (module); x placement(depth<=1) x 3 uses"):
+            for w in wraps:
+                for b in binders:
+                    for u in uses:
+                        add(("py", _T(b=b, w=w, u=u)))
+            for o, i in pl1:
+                for w in wraps:
+                    for b in binders:
+                        for u in ("sub-flag", "and", "semi"):
+                            add(("py", _T(b=b, o=o, i=i, w=w, u=u)))
+        with _Slice("py: binder x interlude x placement(depth<=2) x 2 uses"):
+            for o, i in pl2:
+                for mid in mids:
+                    for b in binders:
+                        for u in ("sub-flag", "and"):
+                            add(("py", _T(b=b, o=o, i=i, mid=mid, u=u)))
+        with _Slice("py: binder pairs: every binder x every b2 x 3 placements x focus"):
+            for o, i in (("", ""), ("f", ""), ("", "f")):
+                for b2 in S.B2_OK:
+                    for b in binders:
+                        for f in both:
+                            add(("py", _T(b=b, o=o, i=i, f=f, b2=b2)))
+
+    # ---------------- clause (c)
+    with _Slice("del: binder x scope x del form x use x wrapper"):
+        for b in delb:
+            add(("del", _T(b=b), "del"))
+        if not thorough:
+            for o in sc1:
+                for dform in S.DEL_ORDER:
+                    for b in delb:
+                        add(("del", _T(b=b, o=o), dform))
+            for o in sc2:
+                for b in delb:
+                    add(("del", _T(b=b, o=o), "del"))
+            for b in delb:
+                for u in cmd_uses:
+                    add(("del", _T(b=b, u=u), "del"))
+            for w in stmt_wraps:
+                for b in delb:
+                    add(("del", _T(b=b, w=w), "del"))
+        else:
+            for o in sc2:
+                for dform in S.DEL_ORDER:
+                    for b in delb:
+                        for u in core_cmd:
+                            add(("del", _T(b=b, o=o, u=u), dform))
+            for o in sc3:
+                for b in delb:
+                    for dform in S.DEL_ORDER:
+                        add(("del", _T(b=b, o=o), dform))
+            for o in sc1:
+                for b in delb:
+                    for u in cmd_uses:
+                        add(("del", _T(b=b, o=o, u=u), "del"))
+                for w in stmt_wraps:
+                    for dform in S.DEL_ORDER:
+                        for b in delb:
+                            add(("del", _T(b=b, o=o, w=w), dform))
+
+    # ---------------- clause (d)
+    with _Slice("atomic: program x broken tail x separator x position"):
+        progs = [_T(b=b) for b in binders]
+        if not thorough:
+            progs += [_T(o=o, i=i) for o, i in pl2]
+            progs += [_T(u=u) for u in uses]
+            mid_progs = [_T(b=b) for b in binders if S.B[b]["family"] in ("assign", "def", "for", "param", "import", "global", "with")]
+        else:
+            progs += [_T(b=b, u=u) for b in binders for u in ("bare", "and", "semi")]
+            progs += [_T(o=o, i=i, u=u) for o, i in pl3 for u in ("sub-flag", "semi")]
+            progs += [_T(u=u, w=w) for u in uses for w in wraps]
+            mid_progs = progs
+        progs = list(dict.fromkeys(progs))
         for sep in ("nl", "semi"):
-            if pos == "mid" and sep == "semi" and not thorough:
-                continue
             for tail in S.TAIL_ORDER:
                 for p in progs:
-                    add(("at", p, tail, sep, pos))
-    mark("atomic: program x broken tail x separator x position", n0)
+                    add(("at", p, tail, sep, "end"))
+        for tail in S.TAIL_ORDER:
+            for p in mid_progs:
+                add(("at", p, tail, "nl", "mid"))
     return items, slices
 
 
